@@ -134,6 +134,26 @@ pub fn c_alloc_drop_instance(k: usize) -> bool {
   ok
 }
 
+/// an instance block [InstanceHeader | len | n Values] built WITHOUT a class object (the header only stores the class pointer; neither
+/// size() nor drop dereference it): the degraded ObjectHandle reports the allocation size and releases it with the instance layout
+pub fn c_alloc_drop_instance_block(len: usize) -> bool {
+  use laythe_core::object::Class;
+  use laythe_core::verif::ArrayHandle;
+  use laythe_core::{ObjRef, ObjectRef};
+  let vals = [VALUE_NIL, Value::from(1.0), Value::from(true)];
+  let n = len % 4;
+  // a block of zeroes stands in for the class object: only its address is stored in the instance header
+  let buf: &'static mut [u64; 32] = Box::leak(Box::new([0u64; 32]));
+  let fake_class: ObjRef<Class> = ObjectRef::new(std::ptr::NonNull::new(buf.as_mut_ptr() as *mut u8).unwrap()).to_class();
+  let handle = ArrayHandle::<Value, InstanceHeader>::from_slice(&vals[..n], InstanceHeader::new(fake_class));
+  let expect = make_array_layout::<InstanceHeader, Value>(n).size();
+  let ok0 = handle.size() == expect;
+  let obj = handle.degrade();
+  let ok = ok0 && obj.size() == expect;
+  drop(obj);
+  ok
+}
+
 /// O-20.3 the handles of the runtime's own collections report the size of their allocation (capacity based) and release it
 /// with that layout
 pub fn c_unique_vector_handle(len: usize, cap: usize) -> bool {
@@ -199,6 +219,9 @@ mod proofs {
   #[kani::proof]
   #[kani::unwind(8)]
   fn o20_1_alloc_drop_list() { assert!(c_alloc_drop_list(kani::any(), kani::any())); }
+  #[kani::proof]
+  #[kani::unwind(8)]
+  fn o20_1_alloc_drop_instance_block() { assert!(c_alloc_drop_instance_block(kani::any())); }
   #[kani::proof]
   #[kani::unwind(8)]
   fn o20_3_unique_vector_handle() { assert!(c_unique_vector_handle(kani::any(), kani::any())); }
